@@ -184,6 +184,25 @@ func setMeasurement(in any, val string) error {
 }
 
 func doCast(result interface{}, tInfo string) (interface{}, ast.DType) {
+	switch result.(type) {
+	case []any, map[string]any:
+		// lists and maps have no scalar form: the result is the target
+		// type's zero value. conv must not see them: it formats the whole
+		// value into its error message, which never terminates for a list
+		// or map that contains itself.
+		switch strings.ToLower(tInfo) {
+		case "bool":
+			return false, ast.Bool
+		case "int":
+			return int64(0), ast.Int
+		case "float":
+			return float64(0), ast.Float
+		case "str", "string":
+			return "", ast.String
+		}
+		return nil, ast.Nil
+	}
+
 	switch strings.ToLower(tInfo) {
 	case "bool":
 		// script numbers are int64/float64, which conv.ToBool does not know
